@@ -21,7 +21,7 @@ pub trait Scenario: Sync {
     /// Symbolic events enabled in this state (unique names).
     fn enabled(&self, w: &World, mon: &Self::Mon, depth: usize) -> Vec<String>;
     /// Concrete event for a symbolic one; may inspect what the client wrote so far.
-    fn concretize(&self, w: &World, mon: &Self::Mon, sym: &str) -> Ev;
+    fn concretize(&self, w: &World, mon: &Self::Mon, sym: &str) -> Vec<Ev>;
     /// Invariants + monitor update; called after world creation (last = None) and after each step.
     fn check(&self, w: &World, mon: &mut Self::Mon, last: Option<&str>) -> Option<(&'static str, String)>;
     fn key(&self, w: &World, mon: &Self::Mon) -> String;
@@ -48,16 +48,25 @@ pub fn replay<S: Scenario>(s: &S, dir: &PathBuf, hist: &[Step], verbose: bool) -
     }
     if violation.is_none() {
         for (sym, digits) in hist {
-            let ev = s.concretize(&world, &mon, sym);
-            world.step(&ev, digits);
-            choice_log = world.choice_log.clone();
+            let evs = s.concretize(&world, &mon, sym);
+            choice_log = vec![];
+            let mut used = 0;
+            for ev in &evs {
+                // the scripted digits are consumed in order over the sub-steps of one event
+                world.step(ev, &digits[used.min(digits.len())..]);
+                used += world.choice_log.len();
+                choice_log.extend(world.choice_log.iter().cloned());
+            }
             violation = s.check(&world, &mut mon, Some(sym));
             if verbose {
-                let evs = match &ev {
-                    Ev::Feed(i, b) => format!("Feed({}, {} bytes: {:?})", i, b.len(), crate::refwire::decode_stream(b).0.iter().map(|m| m.short()).collect::<Vec<_>>()),
-                    other => format!("{:?}", other),
-                };
-                println!("== {} {:?} -> {}", sym, digits, evs);
+                let evs: Vec<String> = evs
+                    .iter()
+                    .map(|ev| match ev {
+                        Ev::Feed(i, b) => format!("Feed({}, {} bytes: {:?})", i, b.len(), crate::refwire::decode_stream(b).0.iter().map(|m| m.short()).collect::<Vec<_>>()),
+                        other => format!("{:?}", other),
+                    })
+                    .collect();
+                println!("== {} {:?} -> {:?}", sym, digits, evs);
                 println!("   manager handled: {:?}", world.cmds);
                 for i in 0..world.peers.len() {
                     if !world.new_msgs(i).is_empty() {
